@@ -176,6 +176,91 @@ theorem reject_and_log_free (sim : Sim) (he : sim.ens = .canonical) (t : Tree) (
   simp only [logRead, h3]
   rw [he]; simp only [revertCalc]
 
+/-! ### the grand-canonical driver -/
+
+theorem revertCalc_fresh_grand (c : CalcS) (a : AtomsS) :
+    Fresh (revertCalc .grand c (some (energy a)) a) a :=
+  ⟨rfl, a, rfl, changes_self a⟩
+
+/-- energy bookkeeping through one trial, for any tree whose rejection / failure restores the atoms (the hypotheses
+    `hfail`, `hrej` are discharged by the C03 theorems) — grand-canonical driver -/
+theorem einv_trial_grand_of (sim : Sim) (he : sim.ens = .grand) (t : Tree) (v : Bool) (cs : CState)
+    (heinv : EInv cs)
+    (hfail : (callTree t cs.m).1 = false → (callTree t cs.m).2.atoms = cs.m.atoms)
+    (hrej : (callTree t cs.m).1 = true → (revertState sim (callTree t cs.m).2).atoms = cs.m.atoms) :
+    let cs' := (logRead (ctrial sim t v cs).2).2
+    EInv cs' ∧ (logRead (ctrial sim t v cs).2).1 = energy cs'.m.atoms := by
+  unfold ctrial
+  rcases hct : callTree t cs.m with ⟨ok, s1⟩
+  rw [hct] at hfail hrej
+  simp only [] at hfail hrej ⊢
+  cases ok with
+  | false =>
+    simp only [Bool.false_eq_true, if_false]
+    have ha := hfail rfl
+    have hf : Fresh cs.cal s1.atoms := fresh_congr _ _ _ ha heinv.fresh
+    obtain ⟨g1, g2, _, _, _⟩ := getEnergy_spec cs.cal s1.atoms (fresh_valid _ _ hf)
+    refine ⟨⟨g2, ?_, ?_⟩, g1⟩
+    · show cs.lastE = energy s1.atoms; rw [ha]; exact heinv.lastE
+    · show cs.lastResults = some (energy s1.atoms); rw [ha]; exact heinv.lastR
+  | true =>
+    have hv0 : Valid cs.cal := fresh_valid _ _ heinv.fresh
+    obtain ⟨_, f1, v1, _, _⟩ := getEnergy_spec cs.cal s1.atoms hv0
+    cases v with
+    | true =>
+      simp only [if_true]
+      obtain ⟨e2, f2, v2, _, _⟩ := getEnergy_spec (getEnergy cs.cal s1.atoms).2 s1.atoms v1
+      have hat : (saveState sim s1).atoms = s1.atoms := saveState_atoms sim s1
+      have f2' : Fresh (getEnergy (getEnergy cs.cal s1.atoms).2 s1.atoms).2 (saveState sim s1).atoms :=
+        fresh_congr _ _ _ hat f2
+      obtain ⟨g1, g2, _, _, _⟩ := getEnergy_spec _ (saveState sim s1).atoms (fresh_valid _ _ f2')
+      refine ⟨⟨g2, ?_, ?_⟩, g1⟩
+      · show (getEnergy (getEnergy cs.cal s1.atoms).2 s1.atoms).1 = energy (saveState sim s1).atoms
+        rw [hat]; exact e2
+      · show (getEnergy (getEnergy cs.cal s1.atoms).2 s1.atoms).2.results = some (energy (saveState sim s1).atoms)
+        rw [hat]; exact f2.1
+    | false =>
+      simp only [if_true, Bool.false_eq_true, if_false]
+      have hat : (revertState sim s1).atoms = cs.m.atoms := hrej rfl
+      have hrc : Fresh (revertCalc sim.ens (getEnergy cs.cal s1.atoms).2 cs.lastResults (revertState sim s1).atoms)
+          (revertState sim s1).atoms := by
+        rw [hat, he, heinv.lastR]
+        exact revertCalc_fresh_grand _ _
+      obtain ⟨g1, g2, _, _, _⟩ := getEnergy_spec _ (revertState sim s1).atoms (fresh_valid _ _ hrc)
+      refine ⟨⟨g2, ?_, ?_⟩, g1⟩
+      · show cs.lastE = energy (revertState sim s1).atoms; rw [hat]; exact heinv.lastE
+      · show cs.lastResults = some (energy (revertState sim s1).atoms); rw [hat]; exact heinv.lastR
+
+/-- **einv_trial (grand canonical, single exchange move)**: after an insertion or deletion trial — accepted, rejected
+    or failed — and the logger's read, reported and reference energy are those of the current atoms -/
+theorem einv_trial_exchange (sim : Sim) (he : sim.ens = .grand) (r : Nat) (v : Bool) (cs : CState)
+    (hinv : InvG cs.m) (heinv : EInv cs) (hk : (cs.m.obj r).kind = .exch)
+    (hlab : (cs.m.obj r).labels.length = cs.m.atoms.rows.length) (hnew : toAddOf (cs.m.obj r) cs.m.ctx ≠ []) :
+    let cs' := (logRead (ctrial sim (.leaf r) v cs).2).2
+    EInv cs' ∧ (logRead (ctrial sim (.leaf r) v cs).2).1 = energy cs'.m.atoms := by
+  have hna := exch_not_accepted_restores sim he r cs.m hinv hk hlab hnew
+  apply einv_trial_grand_of sim he (.leaf r) v cs heinv
+  · intro hf
+    simp only [trial, hf, Bool.false_eq_true, if_false] at hna
+    exact hna
+  · intro hok
+    simp only [trial, hok, if_true, Bool.false_eq_true, if_false] at hna
+    exact hna
+
+/-- **einv_trial (grand canonical, displacement-type trees)** -/
+theorem einv_trial_grand_pos (sim : Sim) (he : sim.ens = .grand) (t : Tree) (v : Bool) (cs : CState)
+    (hinv : Inv sim.ens cs.m) (heinv : EInv cs)
+    (hrs : ∀ r ∈ t.refs, r < cs.m.heap.length) (ht : PosTree cs.m t) :
+    let cs' := (logRead (ctrial sim t v cs).2).2
+    EInv cs' ∧ (logRead (ctrial sim t v cs).2).1 = energy cs'.m.atoms := by
+  have hb : sim.ens ≠ .base := by rw [he]; simp
+  apply einv_trial_grand_of sim he t v cs heinv
+  · exact callTree_fail t cs.m hrs ht
+  · intro hok
+    have := (reject_restores sim t cs.m hb hinv hrs ht hok).2
+    simp only [trial, hok, if_true, Bool.false_eq_true, if_false] at this
+    exact this
+
 /-! ### non-vacuity and the known finding -/
 
 def c4Sim : Sim := { ens := .canonical, table := [{ name := "a", oid := 0, tree := .leaf 0 }] }
